@@ -119,6 +119,7 @@ def _netpa_havoc(self, I, S):
     u = ctx.fresh("U", R_)
     ctx.assume(z3.And(u >= 0, u < 1))
     S.extra["U"] = u
+    I.ext_state["pa_U"] = u
     I.ext_state["pa_result"] = (nxt, res)
     I.ext_state["pa_T0"] = S.old["T"]
     return (nxt, res)
@@ -156,6 +157,10 @@ class GenerativeStep(Contract):
 
     def variants(self):
         return list(V.KINDS)
+
+    def concretize(self, I, S):
+        from . import dyn_cex
+        return dyn_cex.make_env(I, S, False)
 
     def setup(self, I, variant):
         sig, T, st, env, a = env_setup(I, variant)
@@ -219,6 +224,25 @@ class GenerativeStep(Contract):
                 out.append(("C12.info-is-result", z3.BoolVal(False)))
         out.append(("C06.done", bval(done) == GOAL(T1)))
         out.append(("C10.five-tuple", z3.BoolVal(isinstance(S.result, tuple) and len(S.result) == 5)))
+        # functional characterisation for callers (makes bounded counterexamples of step() realisable):
+        # the next state is the network's and the terminal flag is the goal predicate *by definition*
+        from .c_network import net_spec, ss_rows, ur_rows
+        from .c_host_vector import hv_spec
+        U = z3.Real("U_gs") if getattr(S, "callsite", False) else I.ext_state.get("pa_U", z3.Real("U_gs"))
+        if getattr(S, "callsite", False):
+            S.extra["U"] = U
+        T_ss, T_ur = z3.Const("T_ss_spec", A2), z3.Const("T_ur_spec", A2)
+        hs = hv_spec(sig, a, z3.Select(T0, t))
+        defs = z3.And(ss_rows(sig, T0, T_ss, a.tsub, sig.Nk()),
+                      ur_rows(sig, z3.Store(T0, t, hs["next"]), T_ur, a.tsub, sig.Nk()))
+        sp = net_spec(sig, a, T0, U, T_ss, T_ur)
+        out.append(("spec.next-state", z3.Implies(defs, T1 == sp["next"])))
+        out.append(("spec.reward", z3.Implies(defs, rval(reward) == sp["value"] - a.cost)))
+        if getattr(S, "callsite", False):
+            out.append(("spec.defs", defs))
+            out.append(("spec.draw-range", z3.And(U >= 0, U < 1)))
+            if not sig.symbolic:
+                out.append(("spec.goal-def", GOAL(T1) == goal_def(sig, T1)))
         S.extra["summary"] = {"T1": T1, "reward": rval(reward), "done": bval(done)}
         return out
 
@@ -269,6 +293,10 @@ class EnvStep(Contract):
 
     def variants(self):
         return [f"{k}/{lim}" for k in ("Exploit", "NoOp") for lim in ("nolimit", "limit")]
+
+    def concretize(self, I, S):
+        from . import dyn_cex
+        return dyn_cex.make_env(I, S, S.extra.get("limit", False))
 
     def setup(self, I, variant):
         kind, lim = variant.split("/")
